@@ -27,6 +27,18 @@ CHECKS = {
         text="After every scheduling call of the sweep, successful or failing, every procedure alive before the call (source, corpus sub-procedures) is fingerprinted again; any change is decided behaviourally by z3 (old vs new encoding, all inputs within bounds); cursors created before the call must still resolve to the identical node objects; printed text must be byte-identical.",
         note="Behavioural clause is solver-decided; print/cursor identity are concrete observations. Stale analysis caches and cross-process effects are outside.",
         design="5/C07"),
+    "C17": dict(
+        category=TV, engine="loopsym",
+        technique="print -> real @proc parse -> alpha-equivalence walk + z3 equivalence query (loopsym) between the procedure and its re-parsed text",
+        text="For every corpus procedure and every derived procedure of the sweep: the printed text is parsed again by the real front end with the same memories/configs/callees in scope; the two trees must be alpha-equivalent (each use bound to the image of its original declaration: this is the scope rule), print identically, and z3 decides behavioural equality for all inputs within bounds.",
+        note="The solver decides behavioural faithfulness; alpha-equivalence and text identity are concrete observations. Texts the front end refuses for type/bounds/effect reasons (stricter acceptance of scheduled programs) are counted, not judged; ill-formed derived procedures are C04's business.",
+        design="5/C17"),
+    "C19": dict(
+        category=TV, engine="loopsym",
+        technique="C01 equivalence query under an input relation (partial_eval: fixed arguments; transpose: A'[j,i]=A[i,j] via a lambda array; add_assertion: implication of assertion sets + equivalence under the stronger assertions) and plain C01 query for annotation-only ops",
+        text="partial_eval over every single control argument and sampled pairs with all in-range values; transpose of every 2-D argument; add_assertion texts; rename/make_instr/set_precision/set_memory/set_window/parallelize_loop at every candidate: one z3 query each over all inputs within the bounds.",
+        note="Same bounds, reals model and trusted base as C01.",
+        design="5/C19"),
 }
 
 NOT_APPLICABLE = [
@@ -34,7 +46,7 @@ NOT_APPLICABLE = [
     ("C18", "Quantifies over CPython hash seeds and process histories; encoding it needs a model of the interpreter's dict/set implementation, not of Exo (DESIGN 6)."),
 ]
 
-PENDING = {p: 'check under construction in this round (design in DESIGN.md section 5); not claimed until its command exists' for p in ['C02','C03','C05','C06','C08','C09','C10','C11','C12','C13','C14','C16','C17','C19']}
+PENDING = {p: 'check under construction in this round (design in DESIGN.md section 5); not claimed until its command exists' for p in ['C02','C03','C05','C06','C08','C09','C10','C11','C12','C13','C14','C16']}
 
 
 def main():
